@@ -34,8 +34,9 @@ def one(d):
 
 def main():
     dirs = sorted(p for p in (VERIF / "refactors").iterdir() if p.is_dir())
-    if len(sys.argv) > 1:
-        dirs = [d for d in dirs if d.name in sys.argv[1:]]
+    names = [a_ for a_ in sys.argv[1:] if not a_.startswith("--")]
+    if names:
+        dirs = [d for d in dirs if d.name in names]
     silent = 0
     with ThreadPoolExecutor(16) as ex:
         res = list(ex.map(one, dirs))
@@ -47,6 +48,8 @@ def main():
         else:
             silent += 1
     print(f"{len(res)} refactorings, {silent} silent, {len(res) - silent} with false alarms")
+    if "--record" in sys.argv:
+        (VERIF / "refactors" / "SILENT.json").write_text(json.dumps(sorted(n for n, f in res if f is not None and not f), indent=0))
 
 
 if __name__ == "__main__":
